@@ -367,11 +367,11 @@ func fieldChaseLoop(c *core.Ctx, f *ssa.Function, body map[*ssa.BasicBlock]bool)
 // part after the first '.' (second result of splitInclude) and leaves when
 // there is no such part — the loop form of the recursion certificate
 // "strictly shorter name".
-func shrinkingStringLoop(f *ssa.Function, body map[*ssa.BasicBlock]bool) (string, bool) {
+func shrinkingStringLoop(c *core.Ctx, f *ssa.Function, body map[*ssa.BasicBlock]bool) (string, bool) {
 	for b := range body {
 		for _, in := range b.Instrs {
 			call, ok := in.(*ssa.Call)
-			if !ok || call.Call.StaticCallee() == nil || call.Call.StaticCallee().Name() != "splitInclude" || len(call.Call.Args) != 1 {
+			if !ok || call.Call.StaticCallee() == nil || !c.Named(call.Call.StaticCallee(), "splitInclude") || len(call.Call.Args) != 1 {
 				continue
 			}
 			var head, rest ssa.Value
